@@ -297,7 +297,20 @@ class Rig(object):
         elif csr != HEIGHT:
             self.allow25 = False
         # reported cursor must be the internal cursor under one of the accepted reporting variants
+        before_window = (m.view, m.top, m.bottom)
         self.resync()
+        # the scroll window is what VIEW PRINT made it; no other statement of the alphabet but a mode /
+        # width change touches it (the window is otherwise taken from the implementation when the model is
+        # re-read, so it has to be pinned here)
+        now_window = (self.model.view, self.model.top, self.model.bottom)
+        if r.err is None:
+            if kind == 'V':
+                want = (True, spec[1], spec[2]) if spec[1] is not None else (False, 1, HEIGHT - 1)
+                if now_window != want:
+                    viols.append(('view/window-not-as-set', 'after %r the scroll window is %r, expected %r' % (stmt, now_window, want)))
+            elif not (kind == 'S' and spec[1] == 'WIDTH') and now_window != before_window:
+                viols.append(('view/window-changed-by-%s' % name, 'after %r the scroll window is %r, was %r' % (
+                    stmt, now_window, before_window)))
         if (csr, pos) not in self.model.cursor_reports() and self.model.in_window():
             stale = self.ts.overflow and self.ts.current_col != w
             viols.append(('cursor/report-differs/%s/%s' % (
